@@ -559,6 +559,23 @@ class FunctionReference:
             )
         memento_fn = ref
 
+        # A reference that names a version was recorded for the function that goes by this
+        # name itself. Once that function is gone, its name may be left as another name for
+        # a different function (an alias, a re-export), which is not what was recorded.
+        own_fn = getattr(memento_fn, "fn", None)
+        if (
+            version is not None
+            and own_fn is not None
+            and hasattr(own_fn, "__qualname__")
+            and (own_fn.__module__, own_fn.__qualname__)
+            != (module.__name__, function_name)
+        ):
+            raise ValueError(
+                "{} is bound to another function, {}:{}".format(
+                    function_name, own_fn.__module__, own_fn.__qualname__
+                )
+            )
+
         # Check version
         if version is not None and memento_fn.version() != version:
             raise ValueError(
